@@ -35,7 +35,7 @@ import (
 // every corpus, this package is not.
 const OpSequencesDoc = "operation sequences: services mixing method kinds {unary GET path+query, unary POST body, unary PUT header+cookie, server streaming with payload, client streaming with result, bidirectional streaming with payload}, services unary{get,post,hc}, mixed{get,hc,srv,cli}, all{6 kinds}, one service per design; " +
 	"operations = method x value variant {full: every attribute set; minimal: only required attributes, all values different from full; streams: full = 2 messages per direction, minimal = 1}; " +
-	"every sequence of operations of length <= 3 (thorough <= 4) over one service is executed in a fresh process on ONE mounted generated server and ONE generated client object (loopback TCP: net/http client and gorilla/websocket dialer against httptest.Server); " +
+	"every sequence of operations of length <= 3 (thorough <= 4) over one service is executed in a fresh process on ONE mounted generated server and ONE generated client object (real sockets: net/http client and gorilla/websocket dialer against an httptest.Server listening on a unix domain socket); " +
 	"oracle (differential): the observation of the last operation of every sequence equals the observation of that operation executed alone in a fresh process; all prefixes are sequences themselves, so every position of every sequence is covered"
 
 func opSeqMethod(n int, kind, service string) *spec.Method {
@@ -138,7 +138,7 @@ func RunSequences(c *core.Ctx, mode string) {
 	c.Note("operation_sequences_rule", OpSequencesDoc+"; bound: every sequence of "+bound+"; one case = one sequence; observed here: "+side+
 		"; a failing sequence is reported when no shorter sequence (a subsequence of its predecessors followed by the same operation) fails in the same way; signature = operation kind, predecessor kinds (with the value variant when only some variants fail), what differs")
 	c.Assume("operation sequences: a fresh state is a fresh process (one process per sequence), so that package-level state of generated code and of goa's runtime packages starts initial as well; the state after a prefix is reached by replaying the prefix")
-	c.Assume("operation sequences: observations leave out what legitimately differs between two mounts or two connections: the listener's port (Host, error texts), Date, the WebSocket handshake nonce and its digest; nothing else is normalised")
+	c.Assume("operation sequences: observations leave out what legitimately differs between two mounts or two connections: Date, the WebSocket handshake nonce and its digest; a panic is observed by message and site, not by stack; nothing else is normalised")
 	if c.Expired() {
 		c.Incomplete("operation-sequence family not run: budget exhausted before it started")
 		return
